@@ -150,7 +150,8 @@ class Run:
 
         wall = time.time() - self.t0
         ev = {
-            'property_id': prop, 'tier': self.tier, 'seed': self.seed, 'level': 'proof',
+            'property_id': prop, 'tier': self.tier, 'seed': self.seed,
+            'level': 'proof' if (self.obligations > 0 and self.discharged == self.obligations) else 'exploration',
             'coverage': {
                 'obligations': self.obligations, 'discharged': self.discharged,
                 'checker_cmd': 'cd /verif/lean && lake build Rrss.Thm.%s && lake env lean work/Audit_%s.lean  (#print axioms of every listed theorem; allowed: propext, Classical.choice, Quot.sound)' % (prop, prop),
